@@ -66,6 +66,10 @@ def _build(kind: str, cn: str = "localhost", label: str | None = None):
     key = _key(kind)
     label = label or kind  # twins: same names and serial number, different keys
     name = x509.Name([x509.NameAttribute(NameOID.COMMON_NAME, cn + "-" + label)])
+    if kind.endswith("-nocn"):
+        name = x509.Name([x509.NameAttribute(NameOID.ORGANIZATION_NAME, "Acme " + label)])  # a subject without commonName
+    elif kind.endswith("-nosubject"):
+        name = x509.Name([])  # empty subject and issuer; the names are in the SAN only
     now = datetime.datetime(2026, 1, 1, tzinfo=datetime.timezone.utc)
     if "expired" in kind:
         now = datetime.datetime(2010, 1, 1, tzinfo=datetime.timezone.utc)  # valid 2010 .. 2019
